@@ -164,6 +164,14 @@ def col_stats(c):
     return t, vals
 
 
+def clamp_int(b):
+    # bounds stay inside the int64 range: numpy raises OverflowError when a
+    # column is compared with a Python int beyond it (detection) while plain
+    # verification compares Python ints; out-of-range bounds are left out of
+    # the workload (DESIGN 10.3)
+    return max(-2 ** 63, min(2 ** 63 - 1, b))
+
+
 def near_miss(r, frame_spec):
     """Constraints near the data's own statistics, with at least some
     violated (for detection)."""
@@ -189,13 +197,13 @@ def near_miss(r, frame_spec):
                     b = r.pick([lo, mid, hi, lo + 1, lo - 1,
                                 lo * 1.005 if lo else 0.5])
                     if t == 'int':
-                        b = int(b)
+                        b = clamp_int(int(b))
                     f['min'] = maybe_precision(r, b)
                 if r.chance(0.7):
                     b = r.pick([hi, mid, lo, hi - 1, hi + 1,
                                 hi * 0.995 if hi else -0.5])
                     if t == 'int':
-                        b = int(b)
+                        b = clamp_int(int(b))
                     f['max'] = maybe_precision(r, b)
             if r.chance(0.5):
                 f['sign'] = r.pick(SIGNS)
